@@ -134,7 +134,11 @@ func hC11Hostile() {
 	if ct != "" {
 		hdr["Content-Type"] = []string{ct}
 	}
-	switch c11choose(aspect, 7, "ctrl", 6) {
+	corruptCompressed := false
+	switch c11choose(aspect, 7, "ctrl", 7) {
+	case 6: // declared gzip, frame flagged compressed, payload bytes arbitrary (mostly corrupt)
+		hdr.Set("Grpc-Encoding", "gzip")
+		corruptCompressed = true
 	case 1:
 		hdr.Set("Grpc-Encoding", string(nondetBytes("enc", 1)))
 	case 2:
@@ -153,6 +157,9 @@ func hC11Hostile() {
 	body := nondetBytes("body", n)
 	if n >= 5 {
 		verifAssume(body[1] == 0 && body[2] == 0 && body[3] == 0 && body[4] < 12)
+	}
+	if corruptCompressed {
+		body = append([]byte{1, 0, 0, 0, 2}, nondetBytes("compressedPayload", 2)...)
 	}
 	major := 2 - c11choose(aspect, 6, "protoMajor", 2)
 	req := &http.Request{Method: method, URL: &url.URL{Path: path, RawQuery: query}, Proto: "HTTP/x", ProtoMajor: major, Header: hdr,
